@@ -273,6 +273,62 @@ def run_case(ctx, i, rng):
                 from ..canon import first_diff
                 ctx.violation("second-export:reread-names-differ", first_diff(names_of(n), names_of(n3)) or "names differ")
                 return
+        if i % 3 == 1:
+            # the netlist READ BACK from the file (EDIF naming policy, every element carries the identifier of the file):
+            # elements are replaced by fresh ones of the same name (remove, then create) and the netlist is exported again
+            replaced = 0
+            for l_ in n2.libraries:
+                for d_ in l_.definitions:
+                    for x_ in list(d_.children):
+                        if r.random() < 0.4:
+                            for op in list(x_.pins):
+                                if op.wire is not None:
+                                    op.wire.disconnect_pin(op)
+                            nm_, ref_ = x_.name, x_.reference
+                            d_.remove_child(x_)
+                            x_.reference = None
+                            d_.create_child(nm_, reference=ref_)
+                            replaced += 1
+                    for c_ in list(d_.cables):
+                        if r.random() < 0.4:
+                            for w_ in c_.wires:
+                                for p_ in list(w_.pins):
+                                    w_.disconnect_pin(p_)
+                            nm_, nw_ = c_.name, len(c_.wires)
+                            d_.remove_cable(c_)
+                            d_.create_cable(nm_, wires=nw_)
+                            replaced += 1
+            ctx.count("elements_replaced_in_reread_netlist", replaced)
+            f4 = os.path.join(d, "z.edf")
+
+            def names_of2(nl):
+                return {l.name: {dd.name: ([p.name for p in dd.ports], sorted(c.name for c in dd.cables), sorted(x.name for x in dd.children))
+                                 for dd in l.definitions} for l in nl.libraries}
+            before = names_of2(n2)
+            try:
+                sdn.compose(n2, f4)
+            except Exception as ex:  # noqa: BLE001
+                ctx.violation("export-after-replace-raised:%s" % type(ex).__name__, "%r at %s (%d elements replaced by same-named fresh ones)" % (
+                    ex, probes.innermost_frame(ex), replaced))
+                return
+            for l_ in n2.libraries:
+                for d_ in l_.definitions:
+                    for scope, es in (("port", list(d_.ports)), ("net", list(d_.cables)), ("instance", list(d_.children))):
+                        res = check_scope(ctx, scope, es, flag_rule=False)
+                        if res:
+                            ctx.violation("export-after-replace:" + res[0] + ":" + scope, res[1])
+                            return
+            try:
+                n4 = sdn.parse(f4)
+            except Exception as ex:  # noqa: BLE001
+                fr = probes.innermost_frame(ex) or ""
+                ctx.violation("export-after-replace:written-file-rejected:%s:%s" % (type(ex).__name__, fr.split(":")[-1]), "%r at %s" % (str(ex)[:200], fr))
+                return
+            ctx.count("exports_after_replace_reparsed")
+            if before != names_of2(n4):
+                from ..canon import first_diff
+                ctx.violation("export-after-replace:reread-names-differ", first_diff(before, names_of2(n4)) or "names differ")
+                return
     finally:
         shutil.rmtree(d, ignore_errors=True)
     ctx.fingerprint(tuple(sorted(originals.values())), any(k in ("case-only", "sanitised-same", "long", "truncation") for k in kinds_all))
